@@ -92,6 +92,7 @@ theorem so3_triangle_partial (a b c : St ℝ) (ha : inDom (.so3 : Space ℝ) a) 
   obtain ⟨x2, y2, z2, w2, rfl, h2⟩ := so3_inDom_shape hb
   obtain ⟨x3, y3, z3, w3, rfl, h3⟩ := so3_inDom_shape hc
   exact SpaceDist.so3_triangle_partial h1 h2 h3
+example : inDom (.so3 : Space ℝ) (.so3 1 0 0 0) := by simp [inDom, unitQ]
 
 /-- the other five laws hold for the clamped function. -/
 theorem so3_other_laws :
@@ -190,6 +191,9 @@ theorem mobius_other_laws (imax : ℝ) (h0 : 0 ≤ imax) (u1 v1 u2 v2 : ℝ)
     mobiusDist u1 v1 u2 v2 ≤ maxExtent (.mobius imax 1 : Space ℝ) :=
   ⟨Seam.mobiusDist_nonneg _ _ _ _ hu1 hu2, Seam.mobiusDist_self _ _, Seam.mobiusDist_symm _ _ _ _,
     by rw [Seam.maxExtent_mobius]; exact Seam.mobiusDist_le_extent _ _ _ _ _ hv1 hv2 h0⟩
+example : so2InBounds (0:ℝ) = true ∧ |(1/2:ℝ)| ≤ 1 := by
+  refine ⟨?_, by norm_num [abs_le]⟩
+  rw [so2InBounds_real]; constructor <;> linarith [Real.pi_pos]
 
 /-- what does hold of the Klein-bottle distance as coded. -/
 theorem klein_other_laws (u1 v1 u2 v2 : ℝ) (hu1 : 0 ≤ u1 ∧ u1 ≤ Real.pi) (hu2 : 0 ≤ u2 ∧ u2 ≤ Real.pi)
@@ -198,6 +202,7 @@ theorem klein_other_laws (u1 v1 u2 v2 : ℝ) (hu1 : 0 ≤ u1 ∧ u1 ≤ Real.pi)
     kleinDist u1 v1 u2 v2 ≤ maxExtent (.klein : Space ℝ) :=
   ⟨Seam.kleinDist_nonneg _ _ _ _ hu1 hu2 hv1 hv2, Seam.kleinDist_self _ _, Seam.kleinDist_symm _ _ _ _ hv1 hv2,
     by rw [Seam.maxExtent_klein]; exact Seam.kleinDist_le_extent _ _ _ _⟩
+example : (0:ℝ) ≤ 1 ∧ (1:ℝ) ≤ Real.pi := ⟨by norm_num, by linarith [Real.pi_gt_three]⟩
 
 /-- F26: the two in-bounds states `(u=0, v=0)` and `(u=π, v=-π)` are the same point of the Klein bottle (glued
 boundary): their distance is 0, yet `equalStates` (componentwise) says they differ — positivity fails. -/
@@ -228,6 +233,9 @@ vectors `u(θ,φ) = (sin φ cos θ, sin φ sin θ, cos φ)` of the two states. -
 theorem sphere_haversine_is_angle (r : ℝ) (a b : St ℝ) (ha : inDom (.sphere r) a) (hb : inDom (.sphere r) b) :
     SpaceDist.dist (.sphere r) a b = r * InnerProductGeometry.angle (sphereVec a) (sphereVec b) :=
   sphere_is_angle r a b ha hb
+example : inDom (.sphere 1 : Space ℝ) (.ccons (.so2 0) (.ccons (.rv [0]) .cnil)) := by
+  refine ⟨?_, le_refl _, Real.pi_pos.le⟩
+  rw [so2InBounds_real]; constructor <;> linarith [Real.pi_pos]
 
 /-- hence the REAL formula is a metric on the points of the sphere, bounded by `π·r`: non-negative, zero to itself,
 symmetric, triangle inequality, zero exactly between states with the same unit vector, and positive w.r.t. the code's
@@ -271,6 +279,7 @@ theorem sphere_extent_exceeded (r : ℝ) (hr : 2 < r) : ¬ ExtentLaw (.sphere r 
   rw [Seam.maxExtent_sphere] at this
   simp only [SpaceDist.dist] at this
   exact absurd this (not_le.2 (Seam.sphere_extent_exceeded r hr))
+example : (2:ℝ) < 3 := by norm_num
 
 /-! ## compounds and wrappers -/
 
@@ -284,15 +293,20 @@ example : isCList (.ccons (1 / 2) .so2 .cnil : Space ℝ) = true := rfl
 /-- the reported extent of a compound is the weighted sum of its components' extents (weights ≥ 2⁻⁵²). -/
 theorem compound_extent_is_weighted_sum (w : ℝ) (h t : Space ℝ) (ht : isCList t = true) (hw : (eps : ℝ) ≤ w) :
     maxExtent (.ccons w h t) = w * maxExtent h + maxExtent t := maxExtent_ccons w h t ht hw
+example : (eps : ℝ) ≤ 1 := by rw [eps_real]; norm_num
 
 /-- **compound_metric**: for ARBITRARILY NESTED weighted compounds (and wrappers anywhere in the tree): if every
 leaf satisfies the five laws and all weights are > 0, so does the whole space.  By structural induction on `Space`. -/
 theorem compound_metric (sp : Space ℝ) (h : AllLeaves (fun w => 0 < w) Laws sp) : Laws sp :=
   compound_metric_aux sp h
+example : AllLeaves (fun w => 0 < w) Laws (.ccons 2 (.rv [0] [1]) (.ccons 1 .so2 .cnil) : Space ℝ) :=
+  ⟨by norm_num, rv_laws _ _, ⟨by norm_num, so2_laws, trivial, rfl⟩, rfl⟩
 
 /-- the same for the extent law (weights ≥ 2⁻⁵², below which the code drops a component from the extent). -/
 theorem compound_extent (sp : Space ℝ) (h : AllLeaves (fun w => (eps : ℝ) ≤ w) ExtentLaw sp) : ExtentLaw sp :=
   compound_extent_aux sp h
+example : AllLeaves (fun w => (eps : ℝ) ≤ w) ExtentLaw (.ccons 1 (.rv [0] [1]) (.ccons (1 / 2) .so2 .cnil) : Space ℝ) := by
+  refine ⟨by rw [eps_real]; norm_num, rv_extent _ _, ⟨by rw [eps_real]; norm_num, so2_extent, trivial, rfl⟩, rfl⟩
 
 /-- every space built from Rⁿ, SO(2), time, discrete and torus leaves by weighted compounds (weights > 0) and
 wrappers, nested to any depth, satisfies the five laws — e.g. SE(2) = [(1, R²), (½, SO(2))]. -/
@@ -308,11 +322,13 @@ example : AllLeaves (fun w => 0 < w) ProvedLeaf
 /-- a wrapper space has exactly its inner space's laws. -/
 theorem wrapper_laws (s : Space ℝ) : (Laws (.wrap s) ↔ Laws s) ∧ (ExtentLaw (.wrap s) ↔ ExtentLaw s) :=
   ⟨wrap_laws_iff s, wrap_extent_iff s⟩
+example : Laws (.wrap (.so2) : Space ℝ) := (wrap_laws_iff _).2 so2_laws
 
 /-- a zero weight makes the compound a pseudo-metric by the user's choice: the component is simply ignored. -/
 theorem zero_weight_ignored (h t : Space ℝ) (ht : isCList t = true) (a1 a2 b1 b2 : St ℝ) :
     dist (.ccons 0 h t) (.ccons a1 a2) (.ccons b1 b2) = dist t a2 b2 := by
   rw [dist_ccons 0 h t ht]; simp
+example : isCList (.ccons 1 (.rv [0] [1]) .cnil : Space ℝ) = true := rfl
 
 /-- the exact domain of the theorems above lies inside what the code's `satisfiesBounds` accepts (which adds
 ε = 2⁻⁵² around boxes and time bounds, 1e-9 around the unit quaternions): every modelled leaf (Rⁿ, SO(2), SO(3), time,
